@@ -228,6 +228,15 @@ func (self Node) binary() ([]byte, error) {
 	}
 }
 
+// sizeHint bounds an element count read from the wire by the node's length (every element takes
+// at least one byte), so that a corrupt header cannot trigger a huge allocation.
+func sizeHint(size int, l int) int {
+	if size > l {
+		return l
+	}
+	return size
+}
+
 // List returns interface elements contained by a LIST/SET node
 func (self Node) List(opts *Options) ([]interface{}, error) {
 	if self.IsError() {
@@ -241,7 +250,7 @@ func (self Node) List(opts *Options) ([]interface{}, error) {
 	if it.Err != nil {
 		return nil, it.Err
 	}
-	ret := make([]interface{}, 0, it.Size())
+	ret := make([]interface{}, 0, sizeHint(it.Size(), self.l))
 	for it.HasNext() {
 		s, e := it.Next(opts.UseNativeSkip)
 		if it.Err != nil {
@@ -272,7 +281,7 @@ func (self Node) StrMap(opts *Options) (map[string]interface{}, error) {
 	if self.kt != thrift.STRING {
 		return nil, errNode(meta.ErrUnsupportedType, "key type must by STRING", nil)
 	}
-	ret := make(map[string]interface{}, it.Size())
+	ret := make(map[string]interface{}, sizeHint(it.Size(), self.l))
 	for it.HasNext() {
 		_, ks, s, e := it.NextStr(opts.UseNativeSkip)
 		if it.Err != nil {
@@ -303,7 +312,7 @@ func (self Node) IntMap(opts *Options) (map[int]interface{}, error) {
 	if it.Err != nil {
 		return nil, it.Err
 	}
-	ret := make(map[int]interface{}, it.Size())
+	ret := make(map[int]interface{}, sizeHint(it.Size(), self.l))
 	for it.HasNext() {
 		_, ks, s, e := it.NextInt(opts.UseNativeSkip)
 		if it.Err != nil {
@@ -336,7 +345,7 @@ func (self Node) InterfaceMap(opts *Options) (map[interface{}]interface{}, error
 	if it.Err != nil {
 		return nil, it.Err
 	}
-	ret := make(map[interface{}]interface{}, it.Size())
+	ret := make(map[interface{}]interface{}, sizeHint(it.Size(), self.l))
 	for it.HasNext() {
 		_, ks, s, e := it.NextBin(opts.UseNativeSkip)
 		if it.Err != nil {
